@@ -35,6 +35,7 @@ enum Status {
 
 #[derive(Clone, Hash)]
 struct Model {
+    advances: u8,
     status: Vec<Status>,
     mini_count: u32,
 }
@@ -43,6 +44,7 @@ struct Model {
 enum Act {
     Approve { key: usize, c: Content },
     Execute { app: u8, key: usize, src: u8, payload: u8 },
+    Advance(u32),
 }
 
 struct C16;
@@ -74,11 +76,14 @@ impl Scenario for C16 {
         let gas = env.register(axelar_gas_service::AxelarGasService, (owner.clone(), operator.clone()));
         let example = env.register(example::Example, (gw.clone(), gas.clone()));
         let mini = env.register(MiniApp, (gw.clone(),));
-        (Ctx { w, gw, keys, set, apps: vec![example, mini] }, Model { status: vec![Status::NotApproved; 3], mini_count: 0 })
+        (Ctx { w, gw, keys, set, apps: vec![example, mini] }, Model { advances: 0, status: vec![Status::NotApproved; 3], mini_count: 0 })
     }
 
-    fn actions(&self, _ctx: &Ctx, _m: &Model) -> Vec<Act> {
+    fn actions(&self, _ctx: &Ctx, m: &Model) -> Vec<Act> {
         let mut v = vec![];
+        if m.advances < 1 {
+            v.push(Act::Advance(20));
+        }
         for key in 0..APPROVABLE {
             for app in 0..2u8 {
                 for src in 0..2u8 {
@@ -105,6 +110,13 @@ impl Scenario for C16 {
         let w = &ctx.w;
         let env = &w.env;
         match a {
+            Act::Advance(n) => {
+                out.kind = "advance";
+                out.accepted = true;
+                w.set_seq(w.seq() + n);
+                w.set_time(w.now() + 5 * *n as u64);
+                m.advances += 1;
+            }
             Act::Approve { key, c } => {
                 out.kind = "approve";
                 let (chain, id) = KEYS[*key];
